@@ -354,7 +354,8 @@ Definition misses_claim (LP RP : list instr) : Prop :=
    first one that does not raise PredicateMismatch.  What one candidate (a view, or a MultiView object
    with its current members) answers to the request at hand is an oracle table.  The fact
    [call_view_reads_only] says that _call_view only iterates over the (cached) candidate list; if the
-   source mutates it, the model declines to predict (None). *)
+   source mutates it, the model declines to predict (None).  Likewise [multiview_stateless]: a MultiView
+   candidate keeps nothing derived from earlier requests, so its answer is a function of its members. *)
 Definition answers := list (view * option view).
 Fixpoint answer_of (tbl : answers) (v : view) : option view :=
   match tbl with
@@ -367,7 +368,7 @@ Fixpoint first_answer (tbl : answers) (vs : list view) : option view :=
   | v :: r => match answer_of tbl v with Some a => Some a | None => first_answer tbl r end
   end.
 Definition request_answer (tbl : answers) (res : option (list view)) : option (option view) :=
-  if call_view_reads_only then option_map (first_answer tbl) res else None.
+  if call_view_reads_only && multiview_stateless then option_map (first_answer tbl) res else None.
 
 (* ---- wire glue ---- *)
 Definition get_slot (v : val) : option slot :=
